@@ -8,22 +8,23 @@ Local Open Scope N_scope.
 Lemma frame_trans a b c : frame a b -> frame b c -> frame a c.
 Proof. intros [A1 [A2 [A3 A4]]] [B1 [B2 [B3 B4]]]. repeat split; congruence. Qed.
 
-Lemma k_resolve_err f p fl f' e : k_resolve f p fl = (f', Err e) -> f' = f.
+Lemma k_resolve_err f p w fl f' e : k_resolve f p w fl = (f', Err e) -> f' = f.
 Proof.
   unfold k_resolve. destruct p as [k|]; [|intros E; injection E as <- _; reflexivity].
   destruct (fs_get f k) as [node|].
   - destruct (f_excl fl); [intros E; injection E as <- _; reflexivity|].
-    destruct node; [destruct (f_trunc fl)|]; discriminate.
+    destruct node; [destruct (f_trunc fl); discriminate|].
+    destruct w; [intros E; injection E as <- _; reflexivity|discriminate].
   - destruct (f_create fl); [discriminate|intros E; injection E as <- _; reflexivity].
 Qed.
 
 Lemma k_open_ok_full s p r w fl s' c :
   k_open s p r w fl = (s', Ok c) ->
-  exists f' k, k_resolve (k_fs s) p fl = (f', Ok k) /\ k_fs s' = f'
+  exists f' k, k_resolve (k_fs s) p w fl = (f', Ok k) /\ k_fs s' = f'
                /\ k_next s' = k_next s + 1
                /\ k_ofd s' = (k_next s, mkOfd (FPath k) r w (f_append fl)) :: k_ofd s.
 Proof.
-  unfold k_open. destruct (k_resolve (k_fs s) p fl) as [f' [k|e]]; [|discriminate].
+  unfold k_open. destruct (k_resolve (k_fs s) p w fl) as [f' [k|e]]; [|discriminate].
   cbn [new_ofd]. intros Ha. apply alloc_fd_ok in Ha. destruct Ha as [_ [_ [_ [_ [En [Eo Ef]]]]]].
   cbn in En, Eo, Ef. exists f', k. repeat split; assumption.
 Qed.
@@ -32,9 +33,9 @@ Qed.
 Lemma k_open_err_full s p r w fl s' e :
   k_open s p r w fl = (s', Err e) -> e <> EMFILE ->
   k_fs s' = k_fs s /\ k_next s' = k_next s /\ k_ofd s' = k_ofd s /\ k_tab s' = k_tab s
-  /\ k_lim s' = k_lim s /\ exists f', k_resolve (k_fs s) p fl = (f', Err e).
+  /\ k_lim s' = k_lim s /\ exists f', k_resolve (k_fs s) p w fl = (f', Err e).
 Proof.
-  unfold k_open. destruct (k_resolve (k_fs s) p fl) as [f' [k|e']] eqn:Er.
+  unfold k_open. destruct (k_resolve (k_fs s) p w fl) as [f' [k|e']] eqn:Er.
   - cbn [new_ofd]. intros Ha Hne. apply alloc_fd_err in Ha. destruct Ha as [_ [_ ->]]. congruence.
   - intros E Hne. injection E as <- <-. apply k_resolve_err in Er as Ef. subst f'.
     cbn. repeat split. exists (k_fs s). reflexivity.
@@ -109,16 +110,12 @@ Proof.
     rewrite Efa in Er. rewrite Ena in En, Etb, Eofd. rewrite Eoa in Eofd. rewrite Eta in Etb.
     unfold k_resolve in Er. destruct p as [k0|]; [|discriminate].
     destruct (fs_get (k_fs s) k0) as [node|] eqn:Eg; cbn in Er; [|discriminate].
-    assert (f' = k_fs s /\ k = k0) as [-> ->] by (destruct node; injection Er as <- <-; auto).
-    (* is it a regular file? *)
-    assert (is_regular_fd sb c = match node with Reg _ _ => true | Dir => false end) as Hreg.
+    (* a directory cannot be opened for writing; a regular file is refused *)
+    destruct node as [cc dd|]; [|discriminate]. injection Er as <- <-.
+    assert (is_regular_fd sb c = true) as Hreg.
     { unfold is_regular_fd, k_ofd_of. rewrite Etb, lookup_tset, N.eqb_refl. cbn [e_ofd].
-      rewrite Eofd. cbn [ofd_get]. rewrite N.eqb_refl. cbn [o_file]. rewrite Ef, Eg.
-      destruct node; reflexivity. }
-    rewrite Hreg. destruct node as [cc dd|]; [discriminate|].
-    intros E. injection E as <- <-. exists c. split; [reflexivity|]. split; [exact Etb|].
-    exists (k_fs s), (mkOfd (FPath k0) false true false).
-    cbn [spec_new]. rewrite Eg. repeat split; assumption.
+      rewrite Eofd. cbn [ofd_get]. rewrite N.eqb_refl. cbn [o_file]. rewrite Ef, Eg. reflexivity. }
+    rewrite Hreg. discriminate.
 Qed.
 
 Lemma open_normal_val nc s b s1 sp :
@@ -195,6 +192,7 @@ Proof.
     + intros E. injection E as <-. apply Hfin. exists f', o.
       rewrite Et, Heq, lookup_tset, N.eqb_refl. repeat split; assumption.
     + unfold k_dup2, t_dup2. rewrite Et, lookup_tset, N.eqb_refl.
+      destruct (N.eqb_spec f (r_fd r)) as [|_]; [congruence|].
       destruct (in_limit (k_lim s1) (r_fd r)); intros E; [|discriminate]; injection E as <-.
       apply Hfin. exists f', o. cbn.
       rewrite lookup_tdel by (apply sorted_tset, sorted_tset; assumption).
@@ -206,6 +204,7 @@ Proof.
     + intros E. injection E as <-. split; [apply frame_refl|].
       exists e, o. rewrite <- Heq, Hm, ent_eta by assumption. repeat split; assumption.
     + unfold k_dup2, t_dup2. rewrite Hm.
+      destruct (N.eqb_spec m (r_fd r)) as [|_]; [congruence|].
       destruct (in_limit (k_lim s) (r_fd r)); intros E; [|discriminate]; injection E as <-.
       split; [repeat split|]. exists e, o. cbn. rewrite lookup_tset, N.eqb_refl.
       repeat split; assumption.
